@@ -76,6 +76,9 @@ def cases(tier):
                     yield ('frame_group2', a1, a2, n, li, sh)
     for n in range(1, sc['n1'] + 1):
         yield ('label_group', n)
+    yield ('series_many_keys', 40, 2)
+    yield ('series_many_keys', 33, 3)
+    yield ('series_many_keys', 70, 2)
     for kind in ('series', 'frame0', 'frame1'):
         for n in range(0 if kind != 'frame1' else 1, sc['win_n'] + 1):
             for ws in (True, False):
@@ -186,6 +189,30 @@ def apply_forms(ctx, tag, mk_items, mk_values, measure, items, info):
     for name, got in forms.items():
         if got != exp:
             ctx.violation(f'{tag}.{name}|one-result-per-group-labelled-by-key', **info, got=got, expected=exp)
+
+
+def run_series_many_keys(case, ctx):
+    '''Series with many distinct keys (more than any small-size shortcut), each repeated, interleaved: partition, keys and the original order inside every group'''
+    _, nkeys, reps = case
+    n = nkeys * reps
+    for order_name, vec in (('interleaved', [(i * 7) % nkeys for i in range(n)]), ('descending-blocks', [nkeys - 1 - (i // reps) for i in range(n)]), ('mirrored', [min(i, n - 1 - i) % nkeys for i in range(n)])):
+        labels = ['L%03d' % ((i * 37) % n) for i in range(n)]
+        s = sf.Series(arr(vec, 'int64'), index=labels, name='nm')
+        info = dict(keys=nkeys, repeats=reps, arrangement=order_name)
+        ctx.state(('many', nkeys, reps, order_name))
+        ctx.transition(2)
+        ctx.nontriv(('many', nkeys, reps, order_name))
+        try:
+            items = list(s.iter_group_items())
+            check_partition(ctx, 'series.iter_group_items|many-keys', items, list(vec), labels, [(norm(v),) for v in vec],
+                            lambda g: g.index.values.tolist(), lambda g: [(norm(v),) for v in g.values.tolist()], info)
+            f = sf.Frame.from_items((('k', arr(vec, 'int64')), ('pos', arr(list(range(n)), 'int64'))), index=labels, name='fn')
+            itf = list(f.iter_group_items('k'))
+            check_partition(ctx, 'frame.iter_group_items|many-keys', itf, list(vec), labels, frame_rows(f), lambda g: g.index.values.tolist(), frame_rows, info)
+        except Exception as e:
+            ctx.violation(f'iter_group|many-keys|raises|{type(e).__name__}', **info, error=repr(e))
+    ctx.outcome('many_keys')
+    ctx.sample({'family': 'series_many_keys', 'keys': nkeys, 'repeats': reps}, limit=1)
 
 
 def run_series_group(case, ctx):
@@ -335,8 +362,8 @@ def run_label_group(case, ctx):
         ft = sf.Frame.from_records([list(range(n)), [i * 2 for i in range(n)]], index=('p', 'q'), columns=ih, name='fn')
         ctx.state(('LG', tuples))
         rows = frame_rows(f)
-        for depth in (0, 1, [0, 1]):
-            keys = [t[depth] if not isinstance(depth, list) else t for t in tuples]
+        for depth in (0, 1, [0, 1], [1, 0]):
+            keys = [t[depth] if not isinstance(depth, list) else tuple(t[d_] for d_ in depth) for t in tuples]
             info = dict(tuples=tuples, depth=depth)
             ctx.transition(3)
             if n >= 2:
@@ -491,7 +518,9 @@ run_window.sizes = 5
 
 def run_case(case, ctx):
     fam = case[0]
-    if fam == 'series_group':
+    if fam == 'series_many_keys':
+        run_series_many_keys(case, ctx)
+    elif fam == 'series_group':
         run_series_group(case, ctx)
     elif fam.startswith('frame_group'):
         run_frame_group(case, ctx)
